@@ -1,4 +1,5 @@
 import RPVerif.Model.Raptor
+import RPVerif.Gen.Raptor
 import RPVerif.Lemmas.Raptor
 
 /-!
@@ -345,6 +346,60 @@ theorem C20_race_witness :
     (lrun false {} [.wp, .wp, .timeout, .wp, .dp, .dp, .watcher, .watcher]).watcher = false
     ∧ (lrun true {} [.wp, .wp, .timeout, .wp, .dp, .dp, .watcher, .watcher]).watcher = true
     ∧ (lrun true {} [.wp, .wp, .timeout, .wp, .dp, .dp, .watcher, .watcher]).answers = 1 := by decide
+
+/-! ## (2b) a result is never handled before its process is registered -/
+
+/-- what holds in every reachable state when start and registration share the lock -/
+def sinv (s : SS) : Bool :=
+  s.watcher
+  && (s.plock == (s.rq == .locked || s.rq == .started || s.rq == .registered))
+  && (s.started == (s.rq == .started || s.rq == .registered || s.rq == .done))
+  && (s.inPool == ((s.rq == .registered || s.rq == .done) && !s.answered))
+  && (!s.finished || s.started)
+  && (s.finished == (s.queued || s.answered))
+  && (!(s.queued && s.answered))
+  && (!s.answered || s.rq == .done)
+  && (s.held == !s.answered)
+
+theorem sinv_step (s : SS) (c : SChoice) (h : sinv s = true) : sinv (sstep true s c) = true := by
+  rcases s with ⟨rq, pl, st, fi, q, ip, hd, an, wt⟩
+  cases rq <;> cases pl <;> cases st <;> cases fi <;> cases q <;> cases ip <;> cases hd <;> cases an <;> cases wt <;>
+    first
+    | (exact absurd h (by decide))
+    | (cases c <;> decide)
+
+theorem sinv_run (cs : List SChoice) : ∀ s, sinv s = true → sinv (srun true s cs) = true := by
+  induction cs with
+  | nil => intro s h; exact h
+  | cons c cs ih => intro s h; exact ih _ (sinv_step s c h)
+
+/-- **C20 (start)**: with the code as it is (`Gen.startInPoolLock`), for every interleaving of the request
+    thread, the dispatch process and the result watcher: the watcher never meets a pid that is not
+    registered (it survives), and once the request thread is through, the process has delivered and the
+    queue is drained, the request was answered and its cores and GPUs are free again -/
+theorem C20_start (cs : List SChoice) :
+    (srun Gen.startInPoolLock {} cs).watcher = true
+    ∧ ((srun Gen.startInPoolLock {} cs).rq = .done → (srun Gen.startInPoolLock {} cs).finished = true →
+       (srun Gen.startInPoolLock {} cs).queued = false →
+         (srun Gen.startInPoolLock {} cs).answered = true ∧ (srun Gen.startInPoolLock {} cs).held = false
+         ∧ (srun Gen.startInPoolLock {} cs).inPool = false)
+    ∧ ((srun Gen.startInPoolLock {} cs).answered = false → (srun Gen.startInPoolLock {} cs).held = true) := by
+  have e : Gen.startInPoolLock = true := by decide
+  rw [e]
+  have h := sinv_run cs {} (by decide)
+  generalize srun true {} cs = s at h
+  rcases s with ⟨rq, pl, st, fi, q, ip, hd, an, wt⟩
+  cases rq <;> cases pl <;> cases st <;> cases fi <;> cases q <;> cases ip <;> cases hd <;> cases an <;> cases wt <;>
+    first
+    | (exact absurd h (by decide))
+    | decide
+
+/-- the schedule the lock excludes: with the start outside the lock the process can deliver before its pid
+    is registered - the watcher dies, the request is never answered, its resources stay busy -/
+theorem C20_start_witness :
+    (srun false {} [.req, .proc, .watcher, .req, .req, .req]).watcher = false
+    ∧ (srun false {} [.req, .proc, .watcher, .req, .req, .req]).held = true
+    ∧ (srun true {} [.req, .req, .proc, .watcher, .req, .req, .watcher]).answered = true := by decide
 
 /-! ## (4) dispatchers -/
 
